@@ -29,6 +29,7 @@ func resetModels(t *Task) {
 	releasedCells = nil
 	inHarnessPhase = false
 	resetRegexpModel()
+	resetEnvModels()
 }
 
 // ---- ownership discipline of pooled objects (C12, concurrency half) ----
